@@ -32,6 +32,9 @@ ResOK(res, m) == m >= 1000000 \/ res <= TolUlp * 128 * P2(m, 1)
 \* are this many units (ulp = P2 / 2^53 degrees = P2 / 2.5e7 units)
 Fine(m) == m < 1048576
 Slack(m) == (TolUlp * P2(m, 1)) \div 25000000 + 1
+\* slack, in units, for a value that is not exactly representable: one unit per rounding of a piece (2 np + 1) and, where the
+\* double no longer resolves a unit (2^20 degrees and more), the TolUlp ulps of the magnitude as well
+PieceSlack(np, m) == 2 * np + 1 + (IF Fine(m) THEN 0 ELSE Slack(m))
 
 \* |q - <<D, R>>| <= slack units
 NearQ(q, D, R, slack) ==
@@ -46,7 +49,7 @@ ValMatch(x, c, n, q, res, np) ==
        /\ \/ x[6]                                                             \* more degrees digits than modelled
           \/ x[5] /\ Fine(Max2(x[10], x[3])) /\ q = <<x[3], x[4]>> /\ (x[8] \/ n = x[2]) /\ ResOK(res, Max2(x[10], x[3]))
           \/ x[5] /\ ~Fine(Max2(x[10], x[3])) /\ NearQ(q, x[3], x[4], Slack(Max2(x[10], x[3]))) /\ (n = x[2] \/ x[3] = 0)
-          \/ ~x[5] /\ NearQ(q, x[3], x[4], 2 * np + 1) /\ (n = x[2] \/ (x[3] = 0 /\ x[4] <= 2 * np + 1))
+          \/ ~x[5] /\ NearQ(q, x[3], x[4], PieceSlack(np, Max2(x[10], x[3]))) /\ (n = x[2] \/ (x[3] = 0 /\ x[4] <= 2 * np + 1))
 
 DecOK(r) ==
   LET x == Decode(r.s) IN
@@ -79,7 +82,7 @@ AziOK(r) ==
             /\ \/ d0[6]
                \/ x[5] /\ Fine(Max2(d0[10], d0[3])) /\ r.vq = <<x[3], x[4]>> /\ (x[6] \/ (x[3] = 0 /\ x[4] = 0) \/ r.vn = x[2]) /\ ResOK(r.vr, Max2(d0[10], d0[3]))
                \/ x[5] /\ ~Fine(Max2(d0[10], d0[3])) /\ NearQ(r.vq, x[3], x[4], Slack(Max2(d0[10], d0[3])))
-               \/ ~x[5] /\ NearQ(r.vq, x[3], x[4], 2 * np + 1)
+               \/ ~x[5] /\ NearQ(r.vq, x[3], x[4], PieceSlack(np, Max2(d0[10], d0[3])))
                         /\ (r.vn = x[2] \/ (x[3] = 0 /\ x[4] <= 2 * np + 1) \/ x[3] = 180 \/ (x[3] = 179 /\ x[4] >= U - 2 * np - 1))
 
 (* ------------------------------ encoder ---------------------------------- *)
